@@ -106,3 +106,76 @@ def generate(repo):
 
 generate.SOURCE = 'src/nfc/tag/{tt1,tt2}.py'
 KERNELS = {'TlvK': generate}
+
+
+# ---------------------------------------------------------------------------------------------------------
+# Type2Tag._format: the control skeleton the model's ph_format / t2_format stands for, with the arithmetic
+# expressions as translated kernels (-> coq/Gen/TlvFmtK.v, bridge lemmas in coq/Bridge/TlvFmtK.v)
+FORMAT_SKELETON = '''if self.ndef and self.ndef.is_writeable:
+    memory = self.ndef._tag_memory
+    offset = self.ndef._ndef_tlv_offset
+    memory_size = HOLE_SIZE
+    skip_bytes = self.ndef._skip_bytes
+    memory[HOLE_LEN_ADDR] = 0
+    offset += HOLE_TERM_STEP
+    while offset in skip_bytes:
+        offset += 1
+    if HOLE_TERM_GUARD:
+        memory[offset] = 254
+    if wipe is not None:
+        for offset in range(HOLE_WIPE_FROM, memory_size):
+            if offset not in skip_bytes:
+                memory[offset] = HOLE_WIPE_VALUE
+    memory.synchronize()
+    return True
+return False'''
+
+
+def format_kernels(tree):
+    fn = py2coq.find_function(tree, 'Type2Tag._format')
+    if [a.arg for a in fn.args.args] != ['self', 'version', 'wipe']:
+        raise Unsupported('_format arguments changed')
+    body = [s for s in fn.body if not (isinstance(s, ast.Expr) and isinstance(s.value, ast.Constant))]
+    holes = {}
+
+    def hole(name, node):
+        holes[name] = copy.deepcopy(node)
+        return ast.Name(id='HOLE_' + name, ctx=ast.Load())
+    try:
+        top = copy.deepcopy(body)
+        blk = top[0].body
+        blk[2].value = hole('SIZE', blk[2].value)
+        blk[4].targets[0].slice = hole('LEN_ADDR', blk[4].targets[0].slice)
+        blk[5].value = hole('TERM_STEP', blk[5].value)
+        blk[7].test = hole('TERM_GUARD', blk[7].test)
+        loop = blk[8].body[0]
+        loop.iter.args[0] = hole('WIPE_FROM', loop.iter.args[0])
+        loop.body[0].body[0].value = hole('WIPE_VALUE', loop.body[0].body[0].value)
+    except (AttributeError, IndexError, TypeError) as e:
+        raise Unsupported('_format has not the expected statement structure: %r' % (e,))
+    got = '\n'.join(ast.unparse(ast.fix_missing_locations(s)) for s in top)
+    if got != FORMAT_SKELETON:
+        raise Unsupported('_format control skeleton changed:\n' + got)
+    size = ast.unparse(holes['SIZE'])
+    if 'memory[14]' not in size:
+        raise Unsupported('_format: data area size expression changed: ' + size)
+    size = size.replace('memory[14]', 'b14')
+    defs = [('gen_t2_fmt_size', 'b14', size), ('gen_t2_fmt_len_addr', 'offset', ast.unparse(holes['LEN_ADDR'])),
+            ('gen_t2_fmt_term_from', 'offset', 'offset + ' + ast.unparse(holes['TERM_STEP'])),
+            ('gen_t2_fmt_wipe_from', 'offset', ast.unparse(holes['WIPE_FROM'])), ('gen_t2_fmt_wipe_value', 'wipe', ast.unparse(holes['WIPE_VALUE']))]
+    out = []
+    for name, arg, expr in defs:
+        src = 'def k(%s):\n    return %s\n' % (arg, expr)
+        out.append(py2coq.Fn(ast.parse(src).body[0], {arg: I}, coqname=name).translate())
+    src = 'def k(offset, memory_size):\n    return %s\n' % ast.unparse(holes['TERM_GUARD'])
+    out.append(py2coq.Fn(ast.parse(src).body[0], {'offset': I, 'memory_size': I}, coqname='gen_t2_fmt_term_guard').translate())
+    return out
+
+
+def generate_fmt(repo):
+    tree = ast.parse(open(os.path.join(repo, 'src/nfc/tag/tt2.py')).read())
+    return '\n'.join([py2coq.PRELUDE % {'src': 'src/nfc/tag/tt2.py Type2Tag._format (translate/kspec_tags_tlv.py)'}] + format_kernels(tree))
+
+
+generate_fmt.SOURCE = 'src/nfc/tag/tt2.py'
+KERNELS['TlvFmtK'] = generate_fmt
